@@ -545,6 +545,26 @@ def check(repo: Repo, run: Run) -> None:
                f"or a different one", nontrivial=bool(ws), line=ent.func.lineno,
                witness="START of a call on thread T, then this record, then the END of the call on thread T")
     run.floor("K10", "decoders scanned", n_dec, 400)
+    # ---- K11 a decoder that was handed a window gives a trace back: the dispatcher drops None, so a path of a decoder that
+    # returns None (explicitly or by running off its end) makes the END of an open START produce nothing.  The only
+    # condition under which a decoder may decline is the record's own role (its func_qualifier bits: a continuation chunk).
+    for ent in D.entries():
+        d = D.decode(ent)
+        lost = []
+        for r_ in normal.split_returns([x for x in d.rec.returns if x.kind == "return"]):
+            if r_.value != const(None):
+                continue
+            if any(x.op == "attr" and x.a[1] == "func_qualifier" for c_, _ in r_.pc for x in sym.walk(c_)):
+                continue
+            lost.append(r_)
+        run.ob("K11", ent.module.name, ent.func_name, f"{ent.key}: every window handed over gives a trace", not lost,
+               "" if not lost else
+               f"the decoder of {ent.key} returns None when "
+               f"{' and '.join((sym.pretty(c_)[:60] if p_ else 'not ' + sym.pretty(c_)[:60]) for c_, p_ in lost[0].pc[-3:]) or 'always'}"
+               f"{' (by running off its end)' if getattr(lost[0], 'implicit', False) else ''}: the window has already been "
+               f"popped, the dispatcher drops None, so the END of an open START yields no trace", nontrivial=bool(lost),
+               line=lost[0].lineno if lost else ent.func.lineno,
+               witness="START ... END of this code on one thread, with nested records that make that condition true")
     for mname, mnode in M.items():
         if mname in (start_m, end_m, all_m, "__init__"):
             continue
